@@ -31,6 +31,10 @@ theorem gen_check_for_answers :
     Gen.C10.checkFinalCond = "len(longest_match) > 0" ∧
     Gen.C10.checkFinalBody = ["self._answer_patterns[longest_match].cancel()", "del self._answer_patterns[longest_match]"] ∧
     Gen.C10.checkRegistered = true := by decide
+/-- `send_packet` reads `self.link` once under the lock.  The model's steps are atomic, so this is not used by the theorems;
+it is what keeps a link error + reconnect in ANOTHER thread, in the middle of a `send_packet`, from diverting the packet to the
+new link (found with real threads under the virtual-time scheduler, see docs/C10.md). -/
+theorem gen_link_read_once : Gen.C10.sendReadsLinkOnce = true := by decide
 theorem gen_setpoint : Gen.C10.setpointSendArgs = ["pk"] ∧ Gen.C10.setpointSize ≤ Gen.C10.maxDataSize := by decide
 
 /-! ## longest-prefix cancellation -/
